@@ -24,7 +24,7 @@ fn spec(t: Tier) -> Spec {
     Spec {
         id: "C11",
         level: "exploration",
-        rule: format!("(1) every token sequence of length <= {} over the 16-token alphabet (and over a variant with -delete) that the reference grammar REJECTS must be rejected by find_main: non-zero status, a diagnostic, empty stdout, tree untouched; (2) for each operand-taking primary every string of <= k symbols over a per-primary alphabet is given as operand; where the reference validity predicate says 'definitely invalid' the vector must be rejected the same way; (3) every vector of (1),(2), every primary with its operand missing, every primary evaluated on an entry already removed by -delete, and -ls/-printf on entries owned by ids without passwd/group entries run under catch_unwind and must not panic; binary slice: vectors <= 3 tokens and a non-UTF-8 argument through the hooks-off binary (exit 101/134/signal = panic/abort; 10 s = hang). scale vectors through the binary: N nested (negated) parentheses, right-nested -o / comma groups, N '!' in a row, chains of N terms, N starting points, operands of N bytes for -name/-regex/-printf/-path, N in 100, 1000, 3000, 10^4, 3x10^4, 10^5 — must end with an ordinary exit status (0, or non-zero with a diagnostic); non-trivial = vector the reference classifies as invalid", glen(t)),
+        rule: format!("(1) every token sequence of length <= {} over the 16-token alphabet (and over a variant with -delete) that the reference grammar REJECTS must be rejected by find_main: non-zero status, a diagnostic, empty stdout, tree untouched; (2) for each operand-taking primary every string of <= k symbols over a per-primary alphabet is given as operand; where the reference validity predicate says 'definitely invalid' the vector must be rejected the same way; (3) every vector of (1),(2), every primary with its operand missing, every primary evaluated on an entry already removed by -delete, and -ls/-printf on entries owned by ids without passwd/group entries run under catch_unwind and must not panic; binary slice: vectors <= 3 tokens and a non-UTF-8 argument through the hooks-off binary (exit 101/134/signal = panic/abort; 10 s = hang). unwritable-output slice through the binary: -print, -print0, -printf (with and without a newline, with \\c), -ls with standard output = /dev/full / a pipe whose reader has gone, and -fprint, -fprint0, -fprintf writing to /dev/full — no panic, a non-zero ordinary status (or SIGPIPE), ENOSPC diagnosed; scale vectors through the binary: N nested (negated) parentheses, right-nested -o / comma groups, N '!' in a row, chains of N terms, N starting points, operands of N bytes for -name/-regex/-printf/-path, N in 100, 1000, 3000, 10^4, 3x10^4, 10^5 — must end with an ordinary exit status (0, or non-zero with a diagnostic); non-trivial = vector the reference classifies as invalid", glen(t)),
         bound: json!({"grammar_len": glen(t), "operand_sweeps": sweeps(t).iter().map(|s| json!({"primary": s.primary, "alphabet": s.alphabet, "maxlen": s.maxlen})).collect::<Vec<_>>()}),
         assumptions: vec![
             "operands whose validity is debatable (valid in GNU but unsupported here, GNU-specific leniency) are executed for no-panic only".into(),
@@ -778,6 +778,95 @@ fn run(ctx: &mut Ctx) {
     odd_trees(ctx, &mut global);
     binary_slice(ctx, &mut global);
     scale_vectors(ctx, &mut global);
+    unwritable_output(ctx, &mut global);
+}
+
+/// The output actions when their destination cannot be written: standard output is /dev/full
+/// (ENOSPC) or a pipe whose reader has gone (EPIPE; the read end is closed before find starts, so
+/// every write fails), and the -f... actions write to /dev/full. find must end with an ordinary,
+/// non-zero exit status (death by SIGPIPE would also be conventional) — not with a panic, and not
+/// with status 0 as if the output had been delivered; ENOSPC must be diagnosed.
+fn unwritable_output(ctx: &mut Ctx, global: &mut u64) {
+    use std::os::unix::io::FromRawFd;
+    use std::os::unix::process::ExitStatusExt;
+    use std::process::{Command, Stdio};
+    let sbx = ctx.sbx.clone();
+    build_c01(&sbx);
+    let exe = crate::engine::repo_bin_dir().join("find");
+    let actions: [(&[&str], bool); 9] = [
+        (&["-print"], true),
+        (&["-print0"], true),
+        (&["-printf", "%p\\n"], true),
+        (&["-printf", "%p "], true),
+        (&["-printf", "%p\\c"], true),
+        (&["-fprint", "/dev/full"], false),
+        (&["-fprint0", "/dev/full"], false),
+        (&["-fprintf", "/dev/full", "%p\\n"], false),
+        (&["-ls"], true),
+    ];
+    for (action, to_stdout) in actions {
+        for dest in ["/dev/full", "closed pipe", "/dev/null"] {
+            *global += 1;
+            if !ctx.mine(*global) {
+                continue;
+            }
+            if !to_stdout && dest != "/dev/null" {
+                continue;
+            }
+            let out: Stdio = match dest {
+                "closed pipe" => {
+                    let mut fds = [0i32; 2];
+                    if unsafe { libc::pipe(fds.as_mut_ptr()) } != 0 {
+                        ctx.rep.machinery("pipe()".into());
+                        continue;
+                    }
+                    unsafe { libc::close(fds[0]) };
+                    unsafe { Stdio::from(std::fs::File::from_raw_fd(fds[1])) }
+                }
+                d => match std::fs::OpenOptions::new().write(true).open(d) {
+                    Ok(f) => Stdio::from(f),
+                    Err(e) => {
+                        ctx.rep.machinery(format!("open {d}: {e}"));
+                        continue;
+                    }
+                },
+            };
+            let mut args: Vec<&str> = vec!["r"];
+            args.extend(action.iter());
+            let o = Command::new(&exe).args(&args).current_dir(&sbx).env_clear().stdin(Stdio::null()).stdout(out).stderr(Stdio::piped()).output();
+            let Ok(o) = o else {
+                ctx.rep.machinery("spawn find".into());
+                continue;
+            };
+            ctx.rep.evaluations += 1;
+            ctx.rep.nontrivial += 1;
+            ctx.rep.count("unwritable_output_runs", 1);
+            let (code, sig) = (o.status.code(), o.status.signal());
+            let err = String::from_utf8_lossy(&o.stderr).to_string();
+            let lost = (to_stdout && dest != "/dev/null") || !to_stdout;
+            let died = matches!(code, Some(101) | Some(134)) || matches!(sig, Some(s) if s != libc::SIGPIPE);
+            // -ls is not the subject of any property here: only "no panic" is judged for it
+            let judged_status = action[0] != "-ls";
+            let problem = if died {
+                Some("panicked / aborted")
+            } else if judged_status && lost && code == Some(0) {
+                Some("reports success although the output could not be written")
+            } else if judged_status && lost && dest != "closed pipe" && sig.is_none() && err.is_empty() {
+                Some("failed without a diagnostic")
+            } else if !lost && code != Some(0) {
+                Some("fails although the output could be written")
+            } else {
+                None
+            };
+            if let Some(what) = problem {
+                ctx.rep.violation(
+                    &format!("C11 find {what}: {} with its output going to {}", action[0], if to_stdout { dest } else { "/dev/full (the action's own file)" }),
+                    format!("find {:?} (standard output: {dest}): code {:?} signal {:?} stderr {:?}", args, code, sig, err.chars().take(300).collect::<String>()),
+                    json!({"prop":"C11","unwritable":dest,"argv":args,"binary":true}),
+                );
+            }
+        }
+    }
 }
 
 /// Argument vectors of a size the exhaustive slices never reach, through the find binary (a stack
